@@ -157,7 +157,15 @@ theorem canon_keySorted {ops : List Op} (hw : WF ops) : KeySorted (canon ops) :=
 /-! ## §2 visibility and values -/
 
 theorem isCounterVal_of_isValue {o : Op} (h : o.isValue = true) : o.isCounterVal = o.isCounterPut := by
-  cases ha : o.action <;> simp_all [Op.isValue, Op.isCounterVal, Op.isCounterPut]
+  unfold Op.isValue at h
+  unfold Op.isCounterVal Op.isCounterPut
+  cases ha : o.action with
+  | put v => cases v <;> rfl
+  | make t => rfl
+  | del => rfl
+  | inc n => rfl
+  | markBegin n v e => rw [ha] at h; simp at h
+  | markEnd e => rfl
 
 theorem incFor_isSome {p o : Op} : (incFor p o).isSome = (p.isInc && o.isCounterVal) := by
   unfold incFor Op.isInc
@@ -450,6 +458,7 @@ theorem storeSeqElems_eq {ops : List Op} {s : Store} (hw : WF ops) (hi : StoreIn
   apply filterMap_congr'
   intro e _
   rw [storeElemRegister_eq hw hi]
+  rfl
 
 /-! ## §5 map keys -/
 
@@ -472,7 +481,8 @@ theorem mem_dedupAdj {x : Bytes} : ∀ {l : List Bytes}, x ∈ dedupAdj l ↔ x 
       subst this
       rw [mem_dedupAdj (l := a :: rest)]
       simp
-    · rw [List.mem_cons, mem_dedupAdj (l := b :: rest), List.mem_cons]
+    · rw [List.mem_cons, mem_dedupAdj (l := b :: rest)]
+      simp
 
 theorem dedupAdj_sorted : ∀ {l : List Bytes}, l.Pairwise (fun a b => bytesLt b a = false) →
     (dedupAdj l).Pairwise (fun a b => bytesLt a b = true)
@@ -495,15 +505,19 @@ theorem dedupAdj_sorted : ∀ {l : List Bytes}, l.Pairwise (fun a b => bytesLt b
       · exact bytesLt_of_lt_of_not_lt hab'
           (List.rel_of_pairwise_cons (List.Pairwise.of_cons h) hz')
 
+theorem mapKey?_eq_some {o : Op} {k : Bytes} : o.mapKey? = some k ↔ o.key = .map k := by
+  unfold Op.mapKey?
+  cases o.key <;> simp
+
 /-- **the keys of a map object** -/
 theorem storeMapKeys_eq {ops : List Op} {s : Store} (hw : WF ops) (hi : StoreInv ops s) (obj : ObjId) :
     storeMapKeys s obj = mapKeys ops obj := by
   unfold storeMapKeys
   rw [mapKeys_eq_keysOf]
-  let kf : Op → Option Bytes := fun o => match o.key with | .map k => some k | _ => none
   have hfm : (s.filter (fun r => r.op.obj == obj && r.op.isValue && r.isVisible)).filterMap
-      (fun r => match r.op.key with | .map k => some k | _ => none) =
-      ((s.filter (fun r => r.op.obj == obj && r.op.isValue && r.isVisible)).map (·.op)).filterMap kf := by
+      (fun r => r.op.mapKey?) =
+      ((s.filter (fun r => r.op.obj == obj && r.op.isValue && r.isVisible)).map (·.op)).filterMap
+        Op.mapKey? := by
     rw [List.filterMap_map]; rfl
   have hP : ∀ r ∈ s, (r.op.obj == obj && r.op.isValue && r.isVisible) =
       (r.op.obj == obj && visible ops r.op) := by
@@ -523,32 +537,20 @@ theorem storeMapKeys_eq {ops : List Op} {s : Store} (hw : WF ops) (hi : StoreInv
     have hao := (List.mem_filter.mp ha).2
     have hbo := (List.mem_filter.mp hb).2
     simp only [Bool.and_eq_true, beq_iff_eq] at hao hbo
-    have hka' : a.key = .map ka := by
-      simp only [kf] at hka
-      split at hka
-      · rename_i k hk; simp only [Option.some.injEq] at hka; rw [hk, hka]
-      · cases hka
-    have hkb' : b.key = .map kb := by
-      simp only [kf] at hkb
-      split at hkb
-      · rename_i k hk; simp only [Option.some.injEq] at hkb; rw [hk, hkb]
-      · cases hkb
+    have hka' : a.key = .map ka := mapKey?_eq_some.mp hka
+    have hkb' : b.key = .map kb := mapKey?_eq_some.mp hkb
     exact h (hao.1.trans hbo.1.symm) ka kb hka' hkb'
   · rw [mem_dedupAdj, mem_keysOf, List.mem_filterMap]
     constructor
     · rintro ⟨o, ho, hk⟩
       obtain ⟨h1, h2⟩ := List.mem_filter.mp ho
-      refine ⟨o, List.mem_filter.mpr ⟨((mem_canon_iff hi).mp h1).1, h2⟩, ?_⟩
-      simp only [kf] at hk
-      split at hk
-      · rename_i k' hk'; simp only [Option.some.injEq] at hk; rw [hk', hk]
-      · cases hk
+      exact ⟨o, List.mem_filter.mpr ⟨((mem_canon_iff hi).mp h1).1, h2⟩, mapKey?_eq_some.mp hk⟩
     · rintro ⟨o, ho, hk⟩
       obtain ⟨h1, h2⟩ := List.mem_filter.mp ho
       simp only [Bool.and_eq_true] at h2
-      refine ⟨o, List.mem_filter.mpr ⟨(mem_canon_iff hi).mpr
-        ⟨h1, isDel_of_isValue (isValue_of_visible h2.2)⟩, by simp [h2.1, h2.2]⟩, ?_⟩
-      simp [kf, hk]
+      exact ⟨o, List.mem_filter.mpr ⟨(mem_canon_iff hi).mpr
+        ⟨h1, isDel_of_isValue (isValue_of_visible h2.2)⟩, by simp [h2.1, h2.2]⟩,
+        mapKey?_eq_some.mpr hk⟩
 
 /-! ## §6 the rendered document -/
 
@@ -563,6 +565,7 @@ theorem storeShowObj_eq {ops : List Op} {s : Store} (hw : WF ops) (hi : StoreInv
       funext fun o => funext fun k => storeMapRegister_eq hw hi o k
     have he : storeSeqElems s = seqElems ops := funext (storeSeqElems_eq hw hi)
     simp only [storeShowObj, showObj, ih, hk, hr, he]
+    rfl
 
 /-- **the document read from the store is the specification's reading of the op set** -/
 theorem storeShowDoc_eq {ops : List Op} {s : Store} (hw : WF ops) (hi : StoreInv ops s) :
